@@ -192,6 +192,9 @@ def check(ctx, report):
     speccheck.run(ctx, report, 'C09', 'opp.json', MODULES, reviewed)
     return_class(ctx, report)
     openvpn_key_id_accepted(ctx, report)
+    # capability / state / protocol flag words are the OR of the members held (rule shared with C11.R15)
+    from .c11 import flag_sets_written_as_held
+    flag_sets_written_as_held(ctx, report, RULE='C09.R19', title='MySQL / RDP flag words are the OR of the members held: nothing is added on the way to compose_numeric_flags')
     tag_discrimination(ctx, report)
     constants(ctx, report)
     ldap_schema(ctx, report)
